@@ -44,6 +44,8 @@ type script struct {
 	chain         string // "", other, empty, invalid-der, leaf-only-of-other, reversed
 	corruptRaw    bool
 	annotations   map[string]string
+	caps          []pf.Capability // non-nil: what the metadata declares instead of the generator capability
+	failAt        string          // command that answers with an error instead of a reply
 }
 
 func (p *script) GetMetadata(ctx context.Context, req *pf.GetMetadataRequest) (*pf.GetMetadataResponse, error) {
@@ -51,9 +53,18 @@ func (p *script) GetMetadata(ctx context.Context, req *pf.GetMetadataRequest) (*
 	if p.mode == "raw" {
 		caps = []pf.Capability{pf.CapabilitySignatureGenerator}
 	}
+	if p.caps != nil {
+		caps = p.caps
+	}
+	if p.failAt == "get-plugin-metadata" {
+		return nil, errors.New("scripted plugin: metadata unavailable")
+	}
 	return &pf.GetMetadataResponse{Name: "scripted", Description: "d", Version: "1.0.0", URL: "u", SupportedContractVersions: []string{"1.0"}, Capabilities: caps}, nil
 }
 func (p *script) DescribeKey(ctx context.Context, req *pf.DescribeKeyRequest) (*pf.DescribeKeyResponse, error) {
+	if p.failAt == "describe-key" {
+		return nil, errors.New("scripted plugin: describe-key failed")
+	}
 	id := req.KeyID
 	if p.describeKeyID != "" {
 		id = p.describeKeyID
@@ -65,6 +76,9 @@ func (p *script) DescribeKey(ctx context.Context, req *pf.DescribeKeyRequest) (*
 	return &pf.DescribeKeyResponse{KeyID: id, KeySpec: pf.KeySpec(spec)}, nil
 }
 func (p *script) GenerateSignature(ctx context.Context, req *pf.GenerateSignatureRequest) (*pf.GenerateSignatureResponse, error) {
+	if p.failAt == "generate-signature" {
+		return nil, errors.New("scripted plugin: generate-signature failed")
+	}
 	sig, certs := lib.RawSign(p.ent, req.Payload), p.ent.Chain()
 	if p.corruptRaw {
 		sig = append([]byte(nil), sig...)
@@ -239,6 +253,15 @@ func main() {
 		{"chain-invalid-der", "raw", func(s *script) { s.chain = "invalid-der" }, true},
 		{"chain-reversed", "raw", func(s *script) { s.chain = "reversed" }, true},
 		{"corrupt-raw-signature", "raw", func(s *script) { s.corruptRaw = true }, true},
+		// a plugin that does not (or no longer) declare a signing capability, or whose command fails: nothing may be returned
+		{"metadata-verifier-capabilities-only", "raw", func(s *script) {
+			s.caps = []pf.Capability{pf.CapabilityTrustedIdentityVerifier, pf.CapabilityRevocationCheckVerifier}
+		}, true},
+		{"metadata-no-capabilities", "envelope", func(s *script) { s.caps = []pf.Capability{} }, true},
+		{"metadata-unknown-capability", "envelope", func(s *script) { s.caps = []pf.Capability{"SIGNATURE_GENERATOR", "signature_generator.raw"} }, true},
+		{"metadata-command-fails", "raw", func(s *script) { s.failAt = "get-plugin-metadata" }, true},
+		{"describe-key-command-fails", "raw", func(s *script) { s.failAt = "describe-key" }, true},
+		{"generate-signature-command-fails", "raw", func(s *script) { s.failAt = "generate-signature" }, true},
 	}
 	specs := lib.KeySpecs
 	type caseT struct {
@@ -331,7 +354,7 @@ func main() {
 		// the deviating one - what the signer learned from the first answer must not excuse the second
 		if len(c.devs) > 0 && ci%2 == 1 {
 			honest := *sc
-			honest.mutate, honest.cty, honest.echoFmt, honest.realFmt, honest.corrupt = nil, "", "", "", false
+			honest.mutate, honest.cty, honest.echoFmt, honest.realFmt, honest.corrupt, honest.caps, honest.failAt = nil, "", "", "", false, nil, ""
 			honest.describeKeyID, honest.describeSpec, honest.genKeyID, honest.chain, honest.corruptRaw = "", "", "", "", false
 			deviating := *sc
 			*sc = honest
